@@ -138,16 +138,7 @@ def r2(run, ctx):
     wcls = ctx.p.cls('circus.watcher:Watcher')
     n_sites = 0
 
-    def dead(e):
-        if isinstance(e, ast.Compare) and isinstance(e.left, ast.Attribute) and \
-                e.left.attr in ('status',) and isinstance(e.ops[0], ast.In):
-            names = {dotted(x) for x in getattr(e.comparators[0], 'elts', [])}
-            if names and names <= {'DEAD_OR_ZOMBIE', 'UNEXISTING'}:
-                return True
-        if isinstance(e, ast.Compare) and isinstance(e.left, ast.Name) and \
-                e.left.id == 'process_status' and isinstance(e.ops[0], ast.In):
-            return True
-        return None
+    from rules.common import dead_test as dead, dead_status_set
     for m in wcls.methods.values():
         if m.name == '__init__':
             continue
@@ -179,6 +170,25 @@ def r2(run, ctx):
                       'a process is dropped from the table although it may still be alive: '
                       'it becomes untracked (no kill awaited, no dead-status test)')
     run.count('R2', n_sites, 3, 'removal sites on Watcher.processes')
+    # the dead-entry sweep of manage_processes drops entries of BOTH dead statuses
+    mp = ctx.fn(W + 'manage_processes')
+    cfgm = ctx.cfg(mp)
+    spawn = ctx.nodes_calling(mp, [W + 'spawn_processes', W + 'spawn_process'])
+    covered = set()
+    for n in removals(ctx, mp):
+        if any(cfgm.reachable(sn, n) for sn in spawn):
+            continue     # only the initial sweep (before the spawn phase)
+        for t in cfgm.nodes:
+            if t.kind == 'test' and n.id in cfgm.branch_nodes(t, 'true') and \
+                    n.id not in cfgm.branch_nodes(t, 'false'):
+                ds = dead_status_set(t.ast)
+                if ds:
+                    covered |= ds
+    run.check('R2', covered >= {'DEAD_OR_ZOMBIE', 'UNEXISTING'}, 'the sweep drops zombie/dead AND '
+              'already-reaped (UNEXISTING) entries', mp, mp.node,
+              'the dead-entry sweep only covers %s: a worker that died and was already reaped '
+              '(e.g. after a kill request) stays listed for ever and is never replaced'
+              % sorted(covered), construct='sweep covers %s' % sorted(covered))
     # reap_process: the pop is followed by the wait loop on every path
     f = ctx.fn(W + 'reap_process')
     cfg = ctx.cfg(f)
